@@ -54,13 +54,15 @@ def run_for(obligation, scratch, extra_env=None):
     ent = idx.get(obligation)
     if not ent:
         return {"reproduced": False, "log": "no replay template for obligation %s" % obligation}
-    r = cargo_test([ent["test"]], scratch, extra_env=extra_env)
-    ok, log = r[ent["test"]]
-    if ok is False:
-        return {"reproduced": True, "log": "replay test %s FAILS on the real code:\n%s" % (ent["test"], log), "test": ent["test"]}
-    if ok is True:
-        return {"reproduced": False, "log": "replay test %s passes on the real code (the scenario it encodes does not fail)\n%s" % (ent["test"], log)}
-    return {"reproduced": False, "log": log}
+    tests = ent.get("tests") or [ent["test"]]
+    r = cargo_test(tests, scratch, extra_env=extra_env)
+    logs = []
+    for t in tests:
+        ok, log = r[t]
+        if ok is False:
+            return {"reproduced": True, "log": "replay test %s FAILS on the real code:\n%s" % (t, log), "test": t}
+        logs.append("replay test %s %s\n%s" % (t, "passes on the real code (the scenario it encodes does not fail)" if ok else "did not run", log[-1500:]))
+    return {"reproduced": False, "log": "\n".join(logs)}
 
 
 def rerun(path):
